@@ -30,7 +30,7 @@ ANCHORS = ("Quantity.__new__", "Quantity.__mul__", "Quantity.__truediv__",
 
 OPS = ["ctor", "ctor", "ctor-str", "ctor-type-str", "mul", "rmul", "div",
        "add", "sub", "neg", "abs", "convert", "round", "quantize", "numunit",
-       "unitdiv", "prod", "pow1"]
+       "unitdiv", "prod", "pow1", "rdiv"]
 
 
 def tie_amount(rng, q):
@@ -138,6 +138,31 @@ def quant_sub(chk, rng, w, wid, mode, plan=None, tvar=None, ops=OPS):
         elif op == "unitdiv":
             body.append({"k": "r", "e": OP("/", U(ua), num(k))})
             expect = lambda st: (1 / k, ua)             # noqa: E731
+        elif op == "rdiv":
+            # number / unit and number / quantity landing in a quantized type
+            done = False
+            allu = list(w.units)
+            rng.shuffle(allu)
+            for s1 in allu:
+                pred = w.predict_pow(("u", s1), -1)
+                if pred["kind"] == "qty" and \
+                        w.types[pred["type"]].quantum is not None:
+                    x1 = rand_fraction(rng, small=True, allow_zero=False)
+                    f1 = w.units[s1].factor
+                    if rng.random() < 0.5:
+                        body = [{"k": "r", "e": OP("/", num(k), U(s1))}]
+                        expect = lambda st: (k / f1, None)      # noqa: E731
+                    else:
+                        body = [{"id": "a", "k": "a", "e": Q(num(x1), s1)},
+                                {"k": "r", "e": OP("/", num(k), V("a"))}]
+                        expect = lambda st: (k / (st["a"] * f1), None)  # noqa
+                    info.update(s1=s1)
+                    done = True
+                    break
+            if not done:
+                op = info["op"] = "mul"
+                body.append({"k": "r", "e": OP("*", V("a"), num(k))})
+                expect = lambda st: (st["a"] * k, ua)   # noqa: E731
         elif op == "prod":
             # a product / quotient whose result type is quantized
             done = False
